@@ -313,44 +313,31 @@ def r10_6(ctx):
     ctx.check(asg.get("self.initial_keys") == "[]" and asg.get("self.initial_values") == "[]", "deferred guess queues start empty", detail="queues", expected="[] / []", found="", fi=init)
 
 
-@rule("R10.7", min_instances=4, desc="get_ranges_dict gives every algebraic symbol the consecutive rows it occupies in the stacked vector (vector-valued symbols shift their successors)")
+@rule("R10.7", min_instances=4, desc="get_ranges_dict gives every algebraic symbol the consecutive rows it occupies in the stacked vector (vector-valued symbols shift their successors) - decided on simulated calls with symbols of 2, 1, 3 entries, one symbol, no symbol")
 def r10_7(ctx):
+    from ..sim import Sim, fresh_obj
+    from ..layout import Sym, LayoutUnknown, freeze
     P = ctx.prog
     f = P.function("casadi_helpers", "get_ranges_dict")
-    sc = ctx.scope(f)
-    loops = [l for l in f.node.body if isinstance(l, ast.For)]
-    ctx.check(len(loops) == 1 and ast.unparse(loops[0].iter) == f.params[0], "get_ranges_dict walks the symbols in order", detail="iteration", expected="for e in list_expr", found=str(len(loops)), fi=f)
-    if len(loops) != 1:
-        return
-    l = loops[0]
-    e = ast.unparse(l.target)
-    # running offset: initial 0, advanced by e.nnz() once per symbol, after the range was recorded
-    stores = [st for st in l.body if isinstance(st, ast.Assign) and isinstance(st.targets[0], ast.Subscript) and ast.unparse(st.targets[0].slice) == e]
-    ok = len(stores) == 1 and isinstance(stores[0].value, ast.Call) and ast.unparse(stores[0].value.func) == "list" and is_call_to(stores[0].value.args[0], "range") and len(stores[0].value.args[0].args) == 2
-    ctx.check(ok, "get_ranges_dict records range(start, stop) for each symbol", detail="range form", expected="ret[e] = list(range(offset, offset+e.nnz()))", found="; ".join(ast.unparse(s) for s in stores), fi=f)
-    if not ok:
-        return
-    n = Norm(sc)
-    lo, hi = stores[0].value.args[0].args
-    off = lo.id if isinstance(lo, ast.Name) else None
-    width = n.poly(hi) - n.poly(lo)
-    ctx.check(off is not None and width == expected("%s.nnz()" % e), "get_ranges_dict range width is the symbol's number of entries", detail="range width", expected="%s.nnz()" % e, found=str(width), fi=f)
-    if off is None:
-        return
-    inits = [d for d in sc.defs.get(off, []) if d.kind == "assign" and not sc.enclosing_loops(d.stmt)]
-    ctx.check(len(inits) == 1 and ast.unparse(inits[0].value) == "0", "get_ranges_dict starts at row 0", detail="initial offset", expected="offset = 0", found="; ".join(ast.unparse(d.stmt) for d in inits), fi=f)
-    upd = [d for d in sc.defs.get(off, []) if d.kind in ("assign", "aug") and sc.within(d.stmt, l)]
-    ok = len(upd) == 1 and sc.order[upd[0].stmt] > sc.order[stores[0]]
-    if ok:
-        st = upd[0].stmt
-        if isinstance(st, ast.AugAssign):
-            ok = isinstance(st.op, ast.Add) and Norm(None).poly(st.value) == expected("%s.nnz()" % e)
-        else:
-            # offset = next_offset  with next_offset = offset + e.nnz()
-            nn = Norm(sc, no_expand=(off,))
-            ok = nn.poly(st.value) == Poly.atom(off) + expected("%s.nnz()" % e)
-    ctx.check(ok, "get_ranges_dict advances the offset by the symbol's number of entries", detail="rows of a later symbol overlap / are shifted (guess for one algebraic lands in another)",
-              expected="offset += e.nnz() after recording the range", found="; ".join(ast.unparse(d.stmt) for d in upd), fi=f)
+    for sizes in ((2, 1, 3), (1,), (3, 3), ()):
+        syms = [fresh_obj("e%d" % i, n=k) for i, k in enumerate(sizes)]
+        hooks = {".nnz": lambda s_, r, a, k, n: r.attrs["n"], ".numel": lambda s_, r, a, k, n: r.attrs["n"], "HashDict": lambda s_, r, a, k, n: {}, "HashOrderedDict": lambda s_, r, a, k, n: {},
+                 "OrderedDict": lambda s_, r, a, k, n: {}}
+        try:
+            out = Sim(P, hooks=hooks).call(f, [syms], {})
+        except LayoutUnknown as e:
+            raise AnalysisError("get_ranges_dict could not be simulated: %s" % e)
+        want, off = [], 0
+        for sy, k in zip(syms, sizes):
+            want.append(list(range(off, off + k)))
+            off += k
+        got = None
+        if isinstance(out, dict):
+            got = [list(out.get(freeze(sy))) if isinstance(out.get(freeze(sy)), (list, range, tuple)) else out.get(freeze(sy)) for sy in syms]
+            if len(out) != len(syms):
+                got = "%d entries for %d symbols" % (len(out), len(syms))
+        ctx.check(got == want, "get_ranges_dict%s: every symbol gets its own consecutive rows" % (sizes,), detail="rows of a later symbol overlap / are shifted (guess for one algebraic lands in another)",
+                  expected="rows %s" % want, found="rows %s" % (got,), fi=f, sample={"sizes": list(sizes)})
 
 
 @rule("R10.8", min_instances=3, desc="the final-node pass of the per-node application never overrides an interval quantity: for symbols that do not exist at the final node the evaluator aliases k=-1 to the last interval, so that pass must come first (or be skipped)")
